@@ -161,15 +161,19 @@ fn run_c13(t: &[&str], out: &mut RunOut, line: &str) {
                 if notes.is_empty() { String::new() } else { format!(" | note: {}", notes.join("; ")) }), err)
         }
         "cast" => {
-            let b = unhex(t[2]);
+            // Pod types are align-1: the cast must not care where the bytes sit
+            let raw = unhex(t[2]);
+            let placed = Placed::new(&raw, (raw.len() + raw.first().copied().unwrap_or(0) as usize) % 8);
+            let b: Vec<u8> = raw.clone();
+            let b_at: &[u8] = placed.get();
             let (s, alias) = match t[1] {
-                "u16" => cast_case!(PodU16, u16, &b[..]),
-                "i16" => cast_case!(PodI16, i16, &b[..]),
-                "u32" => cast_case!(PodU32, u32, &b[..]),
-                "u64" => cast_case!(PodU64, u64, &b[..]),
-                "i64" => cast_case!(PodI64, i64, &b[..]),
-                "u128" => cast_case!(PodU128, u128, &b[..]),
-                "bool" => match pod_from_bytes::<PodBool>(&b) { Ok(p) => (format!("ok {}", bool::from(*p) as u8), true), Err(_) => ("err".into(), true) },
+                "u16" => cast_case!(PodU16, u16, b_at),
+                "i16" => cast_case!(PodI16, i16, b_at),
+                "u32" => cast_case!(PodU32, u32, b_at),
+                "u64" => cast_case!(PodU64, u64, b_at),
+                "i64" => cast_case!(PodI64, i64, b_at),
+                "u128" => cast_case!(PodU128, u128, b_at),
+                "bool" => match pod_from_bytes::<PodBool>(b_at) { Ok(p) => (format!("ok {}", bool::from(*p) as u8), true), Err(_) => ("err".into(), true) },
                 _ => panic!("type"),
             };
             // the mutable twin must behave identically (same length rule, same value, aliasing)
@@ -201,13 +205,15 @@ fn run_c13(t: &[&str], out: &mut RunOut, line: &str) {
         }
         "slice" => {
             let b = unhex(t[2]);
+            let placed = Placed::new(&b, (b.len() + b.first().copied().unwrap_or(0) as usize) % 8);
+            let b_at: &[u8] = placed.get();
             let (s, alias) = match t[1] {
-                "u16" => slice_case!(PodU16, u16, &b[..]),
-                "i16" => slice_case!(PodI16, i16, &b[..]),
-                "u32" => slice_case!(PodU32, u32, &b[..]),
-                "u64" => slice_case!(PodU64, u64, &b[..]),
-                "i64" => slice_case!(PodI64, i64, &b[..]),
-                "u128" => slice_case!(PodU128, u128, &b[..]),
+                "u16" => slice_case!(PodU16, u16, b_at),
+                "i16" => slice_case!(PodI16, i16, b_at),
+                "u32" => slice_case!(PodU32, u32, b_at),
+                "u64" => slice_case!(PodU64, u64, b_at),
+                "i64" => slice_case!(PodI64, i64, b_at),
+                "u128" => slice_case!(PodU128, u128, b_at),
                 _ => panic!("type"),
             };
             let (sm, alias_m) = match t[1] {
@@ -328,7 +334,9 @@ fn run_c14(t: &[&str], out: &mut RunOut, line: &str) {
             let bde = bincode::deserialize::<PodOption<Address>>(&bo);
             if bde.is_err() != reject { err = Some("binary serde deserialiser accepts some(none-value) or rejects a valid option".into()); }
             if let Ok(p) = &bde { if p.get() != o { notes.push("binary serde decoder does not read back the option"); } }
-            if bincode::serialize(&po).unwrap() != bincode::serialize(&got).unwrap() { notes.push("binary serde encoding differs from Option's"); }
+            // "Serde writes none as null": in a format that tells unit / none / some apart, none must be Serde's `none`
+            if is_none_val && bincode::serialize(&po).unwrap() != bincode::serialize(&None::<Address>).unwrap() { err = Some("Serde does not write none as `none` (null) in a binary format".into()); }
+            if !is_none_val && bincode::serialize(&po).unwrap() != bincode::serialize(&got).unwrap() { notes.push("binary serde encoding of some differs from Option's"); }
             if PodOption::<Address>::default().get().is_some() { err = Some("default is not none".into()); }
             out.stats.bump(&format!("optaddr:{}:{}", t[1], if is_none_val { "noneval" } else { "val" }));
             (format!("get={} try={} mem={} json_null={} de={} bin={}", got.map_or("none".to_string(), |g| hex(g.as_ref())),
@@ -355,6 +363,7 @@ fn run_c14(t: &[&str], out: &mut RunOut, line: &str) {
             if (n == 0) != (json == "null") { err = Some("serde none <-> null violated".into()); }
             let de = serde_json::from_str::<PodOption<NzU64>>(&serde_json::to_string(&o).unwrap());
             if de.is_err() != reject { err = Some("serde deserialiser accepts some(none-value) or rejects a valid option".into()); }
+            if n == 0 && bincode::serialize(&po).unwrap() != bincode::serialize(&None::<NzU64>).unwrap() { err = Some("Serde does not write none as `none` (null) in a binary format".into()); }
             let bde = bincode::deserialize::<PodOption<NzU64>>(&bincode::serialize(&o).unwrap());
             if bde.is_err() != reject { err = Some("binary serde deserialiser accepts some(none-value) or rejects a valid option".into()); }
             out.stats.bump(&format!("optu64:{}:{}", t[1], if n == 0 { "noneval" } else { "val" }));
